@@ -16,7 +16,7 @@ RULE = ("Every text up to length N (5 quick, 7 thorough) over {a, b, space, tab,
         "Random longer texts on top. distinct = distinct (text, pattern, columns); non-trivial = "
         "at least one word.")
 FLOOR = 2000
-SHARDS = {"thorough": 16}
+SHARDS = {"quick": 4, "thorough": 16}
 ASSUMPTIONS = ["whitespace = what Python's \\s matches among the generated characters (space, tab, newline)"]
 
 WS = " \t\n"
@@ -95,9 +95,17 @@ def make_arg(case):
     if pattern == "uniform":
         spec = [[text, {"fg": 34, "underline": True}]]
     else:
-        k = 1 if pattern == "every1" else 2
+        k = 1 if pattern in ("every1", "every1+empty") else 2
         spec = [[text[i:i + k], dict(obs.PALETTE[(i // k + 1) % len(obs.PALETTE)])]
                 for i in range(0, len(text), k)]
+        if pattern == "every1+empty":
+            # empty runs carrying attributes no character has, at every second boundary
+            out = []
+            for i, r in enumerate(spec):
+                out.append(r)
+                if i % 2 == 0:
+                    out.append(["", {"bg": 45, "invert": True}])
+            spec = out
         if not spec:
             spec = [["", {}]]
     return obs.build(spec), obs.spec_cells(spec)
@@ -163,7 +171,7 @@ def _show(line):
     return "".join(obs.show(cs) if k == "w" else "<sp:%s>" % obs.show(cs) for k, cs in line)
 
 
-PATTERNS = ["str", "uniform", "every1", "every2"]
+PATTERNS = ["str", "uniform", "every1", "every2", "every1+empty"]
 
 
 def run(ctx):
